@@ -116,6 +116,7 @@ def c11(tier):
             "the third-party parser quasilyte/regex/syntax is an input of the model (its tree is dumped for every pattern and for the model's pass-1 text)",
             "whether Go's regexp parses a rewritten TEXT to the tree the simplifier meant is not a theorem; the places where it does not are found by the oracle (re-lexing classes among the known findings)",
             "C11_simplify_sound_partial covers trees without capture groups, flag groups and \\Q..\\E on which no prefix/suffix factoring fires; other trees rely on the per-case certificate",
+            "the matcher model is claimed to be Go's semantics only where every loop body consumes at least one rune (no empty-width cycle); patterns outside are excluded from ties, certificate and in_fragment; that the tree emitted for an in_fragment tree stays inside this domain is part of C11_simplify_sound_partial",
             "subjects are valid UTF-8; case folding is modelled for ASCII, U+212A and U+017F only; \\p{..} classes and an operator directly after a flag group are outside the model",
         ],
         trusted=["Go harness internal/c11 (generators, tree dump, classification of oracle witnesses)",
